@@ -38,9 +38,6 @@ def main():
     src = "/tmp/seed/out/%s" % pid
     muts = args[1:] or sorted(f[:-5] for f in os.listdir(src) if f.endswith(".diff"))
     checks = checks or [pid]
-    rc, out = sh("git -C /repo status --porcelain")
-    if out.strip():
-        print("refusing: /repo is not clean"); return 2
     for m in muts:
         diff = os.path.join(src, m + ".diff")
         demo = os.path.join(src, m + "_demo.sh")
@@ -75,14 +72,24 @@ def main():
         res["confirmed"] = bool(res.get("applies") and res.get("compiles") and res.get("tests_pass") and res.get("demo_confirms"))
         res["checks"] = {}
         if res["confirmed"]:
-            rc, out = sh(["git", "-C", "/repo", "apply", diff])
+            # same as: git -C /repo apply; ./check; git -C /repo checkout -- .  -- but on a scratch worktree via VERIF_REPO,
+            # so that several mutants can be evaluated while /repo stays clean (the final confirmation uses /repo itself)
+            wt2 = tempfile.mkdtemp(prefix="seedrun-")
+            os.rmdir(wt2)
+            sh(["git", "-C", "/repo", "worktree", "add", "--detach", "-q", wt2, "HEAD"])
+            sh(["git", "apply", diff], cwd=wt2)
+            evd = tempfile.mkdtemp(prefix="seedev-")
+            env2 = dict(ENV, VERIF_REPO=wt2, VERIF_EVIDENCE_DIR=evd, VERIF_REPLAY_DIR=evd)
             try:
                 for c in checks:
-                    rcc, outc = sh(["./check", c, tier], cwd="/verif", timeout=3600)
+                    p = subprocess.run(["./check", c, tier], cwd="/verif", env=env2, stdout=subprocess.PIPE, stderr=subprocess.STDOUT, timeout=3600)
+                    outc = p.stdout.decode("utf-8", "replace")
                     lines = [l for l in outc.splitlines() if l.startswith(("VIOLATION", "OK ", "UNDECIDED", "KNOWN-FINDING", "violated:"))]
-                    res["checks"][c] = {"rc": rcc, "tier": tier, "lines": [l[:400] for l in lines]}
+                    res["checks"][c] = {"rc": p.returncode, "tier": tier, "lines": [l[:400] for l in lines]}
             finally:
-                sh("git -C /repo checkout -- . && git -C /repo clean -fdq")
+                sh(["git", "-C", "/repo", "worktree", "remove", "--force", wt2])
+                shutil.rmtree(wt2, ignore_errors=True)
+                shutil.rmtree(evd, ignore_errors=True)
         caught = any(v["rc"] == 1 for v in res["checks"].values())
         res["caught"] = caught
         dst = "/verif/seeded/%s-%s" % (pid, m)
